@@ -125,6 +125,18 @@ def directed(rng, kind, **o):
     if kind == "coast":      # strong uniform flow, much land, releases everywhere: land-cancel and boundary kills
         return base_scenario(rng, fm=uniform_fm(rng), nland=rng.randrange(6, 14), nsteps=rng.randrange(4, 9), ntimes=2,
                              nkill=rng.choice([0, 1]), dt=64, **o)
+    if kind == "boundary":   # fast uniform flow (up to ~0.85 cell per step) from releases next to the open boundaries: RK stage clipping
+        sc = base_scenario(rng, fm=uniform_fm(rng), nland=rng.choice([0, 0, 2]), nsteps=rng.randrange(2, 6), ntimes=1, nkill=0, dt=96,
+                           adv=rng.choice(["RK2", "RK4", "RK4"]), cont=False, **o)
+        sub = sc["subgrid"] or [1, sc["imax"] - 1, 1, sc["jmax"] - 1]
+        i0, i1, j0, j1 = sub
+        rows = []
+        for k, (i, j) in enumerate([(i0 + 1, j0 + 2), (i1 - 3, j1 - 3), (i0 + 1, j1 - 3), (i1 - 3, j0 + 1), ((i0 + i1) // 2, j1 - 3), (i1 - 3, (j0 + j1) // 2)]):
+            if sc["M"][j][i] > 0:
+                rows.append(dict(t=sc["start"], mult=1, id=k + 1, xf=i + rng.randrange(-3, 4) / 8.0, yf=j + rng.randrange(-3, 4) / 8.0, zf=float(rng.choice([0, 10, 39]))))
+        if rows:
+            sc["rows"] = rows
+        return sc
     if kind == "shear":      # sheared, time-dependent flow, little land: Runge-Kutta stages differ
         return base_scenario(rng, fm=dict(a=rng.randrange(1, 9), b=rng.randrange(1, 9), c=rng.randrange(0, 30), d=rng.randrange(1, 20), e=rng.randrange(0, 3)),
                              nland=rng.choice([0, 0, 1]), nsteps=rng.randrange(2, 7), adv=rng.choice(["RK2", "RK4", "RK4", "EF"]),
